@@ -325,6 +325,7 @@ func execPartitionIO(t *core.Trace, prop string) *core.Result {
 	if pss > lss {
 		res.Probe("physical-gt-logical")
 	}
+	afterCopy := false
 	for i, o := range t.Ops {
 		if o.K == "part" {
 			continue
@@ -394,7 +395,10 @@ func execPartitionIO(t *core.Trace, prop string) *core.Result {
 				}
 				return res
 			}
-			res.DevOps += d.St.Writes + d.St.Reads
+			res.DevOps += d.St.Writes
+			if !afterCopy {
+				res.DevOps += d.St.Reads
+			}
 			gh := d.GuardHit
 			d.ClearGuard()
 			if gh != nil {
@@ -435,7 +439,9 @@ func execPartitionIO(t *core.Trace, prop string) *core.Result {
 				}
 				return res
 			}
-			res.DevOps += d.St.Reads
+			if !afterCopy {
+				res.DevOps += d.St.Reads
+			}
 			if prop != "C13" {
 				continue
 			}
@@ -480,6 +486,9 @@ func execPartitionIO(t *core.Trace, prop string) *core.Result {
 				return viol(i, "C13.copyraw-never-returns", trig, "sync.CopyPartitionRaw", "no return within 30 s")
 			}
 			res.Fault("sched-unconstrained-goroutines")
+			// (the copy's reading goroutine may still be finishing its last read when CopyPartitionRaw has returned: from
+			// here on device reads are not added to the step measure, which has to be the same in every execution)
+			afterCopy = true
 			gh := d.GuardHit
 			d.ClearGuard()
 			d.Locked = false
